@@ -137,11 +137,15 @@ def run_translators():
             continue
         try:
             text = mod.translate(REPO)
-        except Exception as why:  # fail closed
+        except Exception as why:  # fail closed: the tie is reported broken
             errors.append('%s: %s' % (name, why))
-            text = mod.FALLBACK if hasattr(mod, 'FALLBACK') else None
-            if text is None:
-                continue
+            # keep the models buildable for the search step: use the stale
+            # table if there is one, else the committed snapshot
+            dst = os.path.join(COQ, 'Gen', mod.OUTPUT)
+            snap = os.path.join(VERIF, 'translator', 'fallback', mod.OUTPUT)
+            if not os.path.exists(dst) and os.path.exists(snap):
+                write_if_changed(dst, open(snap).read())
+            continue
         write_if_changed(os.path.join(COQ, 'Gen', mod.OUTPUT), text)
     return errors
 
@@ -164,6 +168,8 @@ def coq_make(targets=None, timeout=1500):
         cmd = ['make', '-f', 'Makefile.coq', '-j%d' % NCPU]
         if targets:
             cmd += targets
+        else:
+            cmd.append('-k')
         rc, out, secs = _run(['timeout', str(timeout)] + cmd, cwd=COQ,
                              timeout=timeout + 30)
     return rc == 0, out, secs
